@@ -84,32 +84,61 @@ def opOf (j : Json) : Except String IOp := do
     | _, _, some e => do pure (.peek (← jsonToNat e))
     | _, _, _ => throw "unknown operation"
 
-/-- The states a script passes through (a fold of `Session.step` next to `Session.exec`, which
-reports what every operation showed): for every operation the state before and after it. -/
-def statesAlong (perm : Nat → List Nat) : List IOp → Session → List (Session × Session)
-  | [], _ => []
-  | op :: ops, s =>
-    let s' := (Session.step perm op s).2
-    (s, s') :: statesAlong perm ops s'
+def attrOf (s : String) : Except String Attr :=
+  match s with
+  | "batch_first" => pure .batchFirst | "sort_batch" => pure .sortBatch
+  | "suppress_alis" => pure .suppressAlis | "suppress_uttids" => pure .suppressUttids
+  | "tokens_only" => pure .tokensOnly
+  | _ => throw s!"unknown attribute {s}"
 
-/-- case: {lens, nb, B, dynamic, drop, sort, cw, mode, dist: null | [rank, world], init_epoch,
-perms: [[epoch, [..ordering..]]..] (the whole-data-set ordering of every epoch that can be reached),
-ops: ["serve" | {"set": e} | "open" | {"next": k} | "len" | {"peek": e}]..}. The sampler is C13's
-model (`EpochSampler.init/iter`), the loader object is `Loader`, the script runs through
-`Session.exec`. Reply: {"err": "ValueError"} (the sampler refuses the world size), {"err": ..}
-(bucket parameters fail) or {"serves": [{epoch, order, batches, rows, err, len, len_after}..] (one
-per "serve"), "events": [{op, epoch (before), epoch_after, order (this rank's samples of the epoch
-before), ..}] (one per operation: "next" carries batch / row / stop / err, "len" carries len, "peek"
-carries samples), "final_epoch", "params"}; `rows` / `row` = a batch after the collate function's
-optional stable sort by length. -/
+/-- an `opOf` operation | {"attr": [name, value]} (an assignment to a public attribute of the loader /
+its data set) | {"drop": value} (`loader.batch_sampler.drop_incomplete = value`). -/
+def vopOf (j : Json) : Except String VOp := do
+  match fieldOpt j "attr", fieldOpt j "drop" with
+  | some (.arr #[.str n, v]), _ => do pure (.assign (← attrOf n) (← jsonToBool v))
+  | some _, _ => throw "attr: expected [name, value]"
+  | _, some d => do pure (.setDrop (← jsonToBool d))
+  | _, _ => do pure (.io (← opOf j))
+
+def presentJ (p : Present) : Json :=
+  objJ [("batch_first", boolJ p.batchFirst), ("sort_batch", boolJ p.sortBatch),
+    ("suppress_alis", boolJ p.suppressAlis), ("suppress_uttids", boolJ p.suppressUttids),
+    ("tokens_only", boolJ p.tokensOnly)]
+
+/-- The states a script passes through (a fold of `View.step` next to `View.exec`, which reports what
+every operation showed): for every operation the state before and after it. -/
+def statesAlong (perm : Nat → List Nat) : List VOp → View → List (View × View)
+  | [], _ => []
+  | op :: ops, v =>
+    let v' := (View.step perm op v).2
+    (v, v') :: statesAlong perm ops v'
+
+/-- case: {lens, nb, B, dynamic, drop, cls: "spect" | "lang" | "cw", present: {batch_first, sort_batch,
+suppress_alis, suppress_uttids, tokens_only} (the flags the constructor stores), mode, dist: null |
+[rank, world], init_epoch, perms: [[epoch, [..ordering..]]..] (the whole-data-set ordering of every
+epoch that can be reached), ops: ["serve" | {"set": e} | "open" | {"next": k} | "len" | {"peek": e} |
+{"attr": [name, value]} | {"drop": value}]..}. The sampler is C13's model (`EpochSampler.init/iter`),
+the loader object is `Loader`, the script runs through `View.exec` (= `Session.exec` + the flags
+stored on the loader and its data set). Reply: {"err": "ValueError"} (the sampler refuses the world
+size), {"err": ..} (bucket parameters fail) or {"serves": [{epoch, order, batches, rows, err, len,
+len_after, present, drop}..] (one per "serve"), "events": [{op, epoch (before), epoch_after, order
+(this rank's samples of the epoch before), present (the flags a collate call of this operation reads
+/ the flags after an assignment), drop (the batch sampler's flag after the operation), ..}] (one per
+operation: "next" carries batch / row / stop / err, "len" carries len, "peek" carries samples),
+"final_epoch", "params"}; `rows` / `row` = the utterance ids the collate function of the class
+(`spectDeliver` / `langDeliver` / `cwCollate` on utterances of the given lengths) attaches to the
+rows of the batch, under the flags in force AT THAT CALL. -/
 def c14Loader : Handler := fun c => do
   let lens ← getNatList c "lens"
   let nb ← getNat c "nb"
   let B ← getNat c "B"
   let dyn ← getBool c "dynamic"
   let drop ← getBool c "drop"
-  let sort ← getBool c "sort"
-  let cw ← getBool c "cw"
+  let cls ← getStr c "cls"
+  let pj ← field c "present"
+  let flags : Present := ⟨← getBool pj "batch_first", ← getBool pj "sort_batch", ← getBool pj "suppress_alis",
+    ← getBool pj "suppress_uttids", ← getBool pj "tokens_only"⟩
+  let cw := cls == "cw"
   let mode ← getStr c "mode" >>= modeOf
   let e0 ← getNat c "init_epoch"
   let dist ← match fieldOpt c "dist" with
@@ -122,7 +151,7 @@ def c14Loader : Handler := fun c => do
     match j with
     | .arr #[e, p] => do pure ((← jsonToNat e), (← jsonToList jsonToNat p))
     | _ => throw "perms: expected [epoch, ordering]") c "perms"
-  let ops ← getList opOf c "ops"
+  let ops ← getList vopOf c "ops"
   let perm : Nat → List Nat := fun e => (dget table e).getD []
   let cfg : LoaderCfg := ⟨lens, nb, B, dyn, drop⟩
   let params := if nb > 1 then paramsJ (bucketParams lens nb B dyn) else Json.null
@@ -132,37 +161,49 @@ def c14Loader : Handler := fun c => do
     match loaderBatches lens nb B dyn drop [] with
     | .error e => pure (objJ [("err", strJ (errStr e))])
     | .ok _ =>
-      let (trace, sfin) := Session.exec perm ops (Session.new l)
-      let states := statesAlong perm ops (Session.new l)
-      let sortRow := fun (b : List Nat) => if sort then sortDesc (fun i => lens.getD i 0) b else b
-      let evs := (trace.zip states).map (fun ((op, out), (s, s')) =>
+      let (trace, vfin) := View.exec perm ops (View.new l flags)
+      let states := statesAlong perm ops (View.new l flags)
+      -- the collate function of the class on utterances of the given lengths, ids = data-set indices
+      let spectData : Nat → SpectItem Unit Unit Unit Nat :=
+        fun i => ⟨List.replicate (lens.getD i 0) (), none, none, i⟩
+      let langData : Nat → List Unit × Nat := fun i => (List.replicate (lens.getD i 0) (), i)
+      let rowsOf := fun (p : Present) (b : List Nat) =>
+        if cw then (cwCollate (b.map (fun i => (List.replicate (lens.getD i 0) (), (none : Option (List Unit)), i)))).2.2.2
+        else if cls == "lang" then (langDeliver () id langData p b).1.2.2
+        else (spectDeliver () () () id spectData p b).batch.uttids
+      let evs := (trace.zip states).map (fun ((op, out, p), (v, v')) =>
+        let s := v.session
+        let s' := v'.session
         let e := s.loader.epoch
         let order := PdtVerif.EpochSampler.samples l.sampler.cfg (perm e)
-        let base := [("epoch", natJ e), ("epoch_after", natJ s'.loader.epoch), ("order", listJ natJ order)]
+        let base := [("epoch", natJ e), ("epoch_after", natJ s'.loader.epoch), ("order", listJ natJ order),
+          ("present", presentJ p), ("drop", boolJ s'.loader.cfg.drop)]
         match op, out with
-        | .serve, .pass (.error er) => ("serve", objJ (base ++ [("op", strJ "serve"), ("err", strJ (errStr er))]))
-        | .serve, .pass (.ok (bs, er)) =>
+        | .io .serve, .pass (.error er) => ("serve", objJ (base ++ [("op", strJ "serve"), ("err", strJ (errStr er))]))
+        | .io .serve, .pass (.ok (bs, er)) =>
           ("serve", objJ (base ++ [("op", strJ "serve"), ("batches", batchesJ bs),
-            ("rows", batchesJ (bs.map sortRow)), ("err", errJ er),
+            ("rows", batchesJ (bs.map (rowsOf p))), ("err", errJ er),
             ("len", exceptNatJ (s.loader.len perm)), ("len_after", exceptNatJ (s'.loader.len perm))]))
-        | .next k, .batch (.ok (some b)) =>
+        | .io (.next k), .batch (.ok (some b)) =>
           ("next", objJ (base ++ [("op", strJ "next"), ("k", natJ k), ("batch", listJ natJ b),
-            ("row", listJ natJ (sortRow b))]))
-        | .next k, .batch (.ok none) =>
+            ("row", listJ natJ (rowsOf p b))]))
+        | .io (.next k), .batch (.ok none) =>
           ("next", objJ (base ++ [("op", strJ "next"), ("k", natJ k), ("stop", boolJ true)]))
-        | .next k, .batch (.error er) =>
+        | .io (.next k), .batch (.error er) =>
           ("next", objJ (base ++ [("op", strJ "next"), ("k", natJ k), ("err", strJ (errStr er))]))
-        | .next k, .noIter =>
+        | .io (.next k), .noIter =>
           ("next", objJ (base ++ [("op", strJ "next"), ("k", natJ k), ("err", strJ "no such iterator")]))
-        | .len, .len n => ("len", objJ (base ++ [("op", strJ "len"), ("len", exceptNatJ n)]))
-        | .peek e', .samples xs =>
+        | .io .len, .len n => ("len", objJ (base ++ [("op", strJ "len"), ("len", exceptNatJ n)]))
+        | .io (.peek e'), .samples xs =>
           ("peek", objJ (base ++ [("op", strJ "peek"), ("of", natJ e'), ("samples", listJ natJ xs)]))
-        | .newIter, _ => ("open", objJ (base ++ [("op", strJ "open")]))
-        | .setEpoch e', _ => ("set", objJ (base ++ [("op", strJ "set"), ("to", natJ e')]))
+        | .io .newIter, _ => ("open", objJ (base ++ [("op", strJ "open")]))
+        | .io (.setEpoch e'), _ => ("set", objJ (base ++ [("op", strJ "set"), ("to", natJ e')]))
+        | .assign _ _, _ => ("attr", objJ (base ++ [("op", strJ "attr")]))
+        | .setDrop _, _ => ("drop", objJ (base ++ [("op", strJ "drop")]))
         | _, _ => ("?", objJ (base ++ [("op", strJ "?")])))
       let serves := (evs.filter (fun p => p.1 == "serve")).map Prod.snd
       pure (objJ [("serves", Json.arr serves.toArray), ("events", Json.arr (evs.map Prod.snd).toArray),
-        ("final_epoch", natJ sfin.loader.epoch), ("params", params)])
+        ("final_epoch", natJ vfin.session.loader.epoch), ("params", params)])
 
 def getRows (j : Json) : Except String (List (List Int)) := jsonToList (jsonToList jsonToInt) j
 
